@@ -11,10 +11,25 @@ CONFIG = {'level': 'proof',
                  'layer theorems proved here: stream names injective and equal to the decoder\'s naming, pack '
                  'splitter inverts the pack layout, id/flush bookkeeping of flush_pack_compress_only obeys the '
                  '(i-1) div/mod 50 resp. i div/mod 50 rule with full non-final packs, metadata convention, LZ entries '
-                 'decode and contain no 0xFF. The end-to-end theorem wf_read (ArchiveWF inp a -> decodeArchive a = inp) '
-                 'is NOT proved; the composition with the real writer is tied by running the decoder on every generated '
-                 'archive: catalogue and bases must equal the input and ragc\'s own reader, and the list of breached '
-                 'addressing rules must be empty',
+                 'decode and contain no 0xFF',
+                 'Model/Writer.lean is a whole-archive REFERENCE WRITER (writeArchive cfg inp dec zc) composed only from '
+                 'the layer models, with every heuristic / scheduling choice of the compressor as data (Decisions: piece '
+                 'lengths, group and orientation per piece, arrival order inside each group, group creation order, tuple '
+                 'flags) and a decidable DecisionsOK. It is tied to the REAL writer on every generated archive: the '
+                 'decisions are read off the decoded archive and the container directory, the ZSTD oracle zc is the table '
+                 'plain -> frame harvested from the archive itself (plus, for parts stored raw, what ragc\'s own '
+                 'compress entry points answer), and writeArchive on the INPUT must reproduce the real file BYTE FOR BYTE '
+                 '(request writer-check; counters writer_bytes_identical / writer_parts_identical; a difference is a '
+                 'disagreement). Why no ordering freedom is left: every archive write of the compressor is '
+                 'add_part_buffered and finalize flushes once, a stable sort by stream id (C13)',
+                 'proved about the reference writer for ALL decisions: container_returns_every_part (bytes -> every part of '
+                 'every stream), group_roundtrip (decodeGroup on a group\'s two streams: no violation, content = plan), '
+                 'read_write_segments (descriptor -> member data through entryAddress / pack splitter / LZ decode); '
+                 'Props/C01 continues with read_write_bases. NOT proved: the last composition step to decodeArchive '
+                 '(writeArchive ...) = ok d with d.violations = [] (directory analysis, catalogue batches and the folds over '
+                 'groups and samples; listed precisely at the end of Props/C01.lean) - that step is covered by running the '
+                 'decoder on every generated archive: catalogue and bases must equal the input and ragc\'s own reader, and '
+                 'the list of breached addressing rules must be empty',
                  'ZSTD is outside Lean: the harness decompresses every frame the decoder lists with the zstd crate and '
                  'hands the results back'],
  'trusted': ['zstd crate: decode_all of a frame written by ragc returns the compressed content (exercised, not proved)'],
@@ -28,7 +43,10 @@ MANIFEST = {'category': 'proof',
          'of flush_pack_compress_only incl. empty deltas, id reuse and the final partial flush: id i>=1 is entry '
          '(i-1)%50 of pack (i-1)/50 in LZ groups, entry i%50 of pack i/50 in raw groups with the placeholder at pack 0 '
          'entry 0, every non-final pack has 50 entries); metadata_convention(+_parts); lz_entry_decodes, '
-         'lz_pack_entry_decodes. The independent decoder (Model/Agc3.lean, written from the format rules, constants '
+         'lz_pack_entry_decodes; about the reference writer Model/Writer.lean (every compressor decision is data): '
+         'container_returns_every_part, group_roundtrip, read_write_segments (all decisions, any ZSTD with the two C12 '
+         'facts). The reference writer is run against every real archive of the run with the decisions read off that '
+         'archive and must reproduce it byte for byte (writer_bytes_identical = number of archives). The independent decoder (Model/Agc3.lean, written from the format rules, constants '
          'hard-wired) is executed on every archive ragc writes for the C01 generator plus two targeted shapes (>50 '
          'deltas per group and two sample batches; raw groups with ids >= 50): it must recover catalogue and bases '
          'identical to the input and to ragc\'s reader, and its addressing-rule checks (one reference part per LZ '
@@ -36,4 +54,5 @@ MANIFEST = {'category': 'proof',
          'metadata 0 <=> raw else unpacked size, params, stream names, batches of 50) must find nothing.',
  'design_ref': 'DESIGN.md §5 C02',
  'technique': 'Lean 4 proofs about the writer-side bookkeeping and codecs + an executable independent decoder in Lean run on '
-              'the bytes of every generated archive (differential against input and against ragc\'s reader)'}
+              'the bytes of every generated archive (differential against input and against ragc\'s reader) + an executable '
+              'reference writer in Lean that must reproduce every real archive byte for byte'}
